@@ -778,6 +778,140 @@ def rule_r14(repo, run):
                   "released", wc.loc(a))
 
 
+
+def rule_r15(repo, run, table):
+    R = run.rule("C06.R15", "a clause that walks a packed array of fixed-length strings (`P += {c_var_len}` per step) takes as many "
+                            "steps as the array has elements ({c_var_size}): the character length is the stride, never the count")
+    n = 0
+    for name, e in sorted(table.resolve_all("c++").items()):
+        for clause in ("pre_call", "post_call"):
+            text = "\n".join(e.lines(clause))
+            strides = re.findall(r"(\w+)\s*\+=\s*\{(c_var_len|c_var_size)\}", text)
+            if not strides:
+                continue
+            loops = re.findall(r"for\s*\(.*?;\s*(\S+?)\s*<\s*(\S+?)\s*;", text)
+            for idx, bound in loops:
+                n += 1
+                # the first assignment of the bound
+                mo = re.search(r"%s\s*=\s*([^;,]+)[;,]" % re.escape(bound), text)
+                rhs = mo.group(1) if mo else ""
+                stride_fields = set(f for p_, f in strides)
+                count_fields = set(re.findall(r"\{(c_var_len|c_var_size)\}", rhs))
+                run.check(R, "fc_statements[%s].%s:steps" % (name, clause),
+                          bool(count_fields) and not (count_fields & stride_fields) and stride_fields == {"c_var_len"},
+                          "the loop runs to `%s = %s` and the pointer advances by %s: the number of steps must be the number of "
+                          "elements ({c_var_size}) and the stride the character length ({c_var_len}), else the loop reads or "
+                          "writes behind the caller's array" % (bound, rhs.strip(), sorted(stride_fields)), table.loc(e.raw))
+    run.floor(R, "loops over packed string arrays in the statements", n, 2)
+
+
+
+def _dangling_at_return(lines):
+    """walk the lines of a clause (blocks are `... {{+` / `-}}`): the fields released with Py_XDECREF / Py_DECREF and not
+    assigned since, at each `return`"""
+    out = []
+    stack = []
+    dangling = set()
+    for raw in lines:
+        for line in raw.split("\n"):
+            t = line.strip()
+            closes = t.startswith("-}}") or t.startswith("}}")
+            if closes and stack:
+                entry, returned = stack.pop()
+                dangling = set(entry) if returned else (set(entry) | dangling)
+                t = t.lstrip("-").lstrip("}").strip()
+                if t.startswith("else"):
+                    stack.append((set(entry), False))
+                    dangling = set(entry)
+                    continue
+            mo = re.match(r"Py_X?DECREF\(\s*(\{\w+\})\s*\)\s*;", t)
+            if mo:
+                dangling.add(mo.group(1))
+            mo = re.match(r"(\{\w+\})\s*=[^=]", t)
+            if mo:
+                dangling.discard(mo.group(1))
+            if re.match(r"return\b", t):
+                if dangling:
+                    out.append((t, sorted(dangling)))
+                if stack:
+                    stack[-1] = (stack[-1][0], True)
+            if t.endswith("{{+") or t.endswith("{{"):
+                stack.append((set(dangling), False))
+    return out
+
+
+def rule_r16(repo, run, T):
+    R = run.rule("C06.R16", "a setter that drops its reference to the object that owns a member's memory (Py_XDECREF of a field of "
+                            "the struct object) stores a new value or NULL in that field on every way out: a stale pointer would "
+                            "be released again by the next assignment or by tp_dealloc")
+    table = T
+    n = 0
+    for name, e in sorted(table.resolve_all("c++").items()):
+        for clause in ("setter",):
+            lines = e.lines(clause)
+            if not any("DECREF" in l for l in lines):
+                continue
+            n += 1
+            bad = _dangling_at_return(lines)
+            run.check(R, "py_statements[%s].%s:released-then-cleared" % (name, clause), not bad,
+                      "at `%s` the field(s) %s were released and not assigned again: the object keeps a pointer to an object it "
+                      "no longer owns" % (bad[0] if bad else ("", ""))[:2], table.loc(e.raw))
+    run.floor(R, "setter clauses that release a field", n, 4)
+
+
+
+def rule_r17(repo, run, helpers):
+    R = run.rule("C06.R17", "a helper that is given the index of the destructor of the object it describes (`int idtor`) records "
+                            "object and index in the capsule on every path: what is not recorded is never released")
+    n = 0
+    for key, h in sorted(helpers.c.items()):
+        for kk, src in tables.helper_sources(h):
+            if not re.search(r"\bint\s+idtor\b\s*[,)]", src):
+                continue
+            n += 1
+            depth, base = 0, None
+            uncond = {"idtor": False, "addr": False}
+            arms = []          # per if/else chain at base depth: list of sets
+            cur = None
+            for line in src.split("\n"):
+                t = line.strip()
+                opens = t.count("{") - t.count("{{") * 2 + t.count("{{")
+                closes = t.count("}") - t.count("}}") * 2 + t.count("}}")
+                if base is None:
+                    if "idtor" in t and "(" in t:
+                        base = 0
+                        depth = 0
+                    else:
+                        continue
+                d0 = depth
+                if t.startswith("-") or t.startswith("}"):
+                    d0 = depth - 1
+                what = None
+                if re.search(r"cxx\.idtor\s*=\s*idtor\s*;", t):
+                    what = "idtor"
+                elif re.search(r"cxx\.addr\s*=\s*(?!NULL|nullptr|0\b)", t):
+                    what = "addr"
+                if what:
+                    if d0 <= 1:
+                        uncond[what] = True
+                    elif cur is not None:
+                        cur.add(what)
+                if d0 == 1 and re.search(r"\bif\s*\(", t):
+                    arms.append([set()])
+                    cur = arms[-1][-1]
+                elif d0 == 1 and re.search(r"\belse\b", t) and arms:
+                    arms[-1].append(set())
+                    cur = arms[-1][-1]
+                depth += opens - closes
+            for what in ("idtor", "addr"):
+                every_arm = any(len(chain) >= 2 and all(what in a for a in chain) for chain in arms)
+                run.check(R, "whelpers.CHelpers[%s].%s:records-%s" % (key, kk, what), uncond[what] or every_arm,
+                          "`cxx.%s` is not assigned on every path (only under a condition): for the inputs that take the other path "
+                          "the capsule has no owner recorded and the object the wrapper allocated is never deleted" % what,
+                          "shroud/whelpers.py")
+    run.floor(R, "helpers that take a destructor index", n, 1)
+
+
 def run(repo, run, tier):
     tables.check_model_assumptions(repo)
     table = tables.StatementTable(repo, "statements", "fc_statements")
@@ -824,3 +958,7 @@ def run(repo, run, tier):
     rule_r12(repo, run)
     rule_r13(repo, run, helpers)
     rule_r14(repo, run)
+    rule_r15(repo, run, table)
+    from sa import tables as _t
+    rule_r16(repo, run, _t.StatementTable(repo, "wrapp", "py_statements"))
+    rule_r17(repo, run, helpers)
